@@ -51,6 +51,60 @@ type c02In struct {
 	Gate      bool      `json:"gate"`      // server declares protocol_version 1.2.0
 	Transport string    `json:"transport"` // "pipe" | "unix" | "tcp"
 	Calls     []c02Call `json:"calls"`
+	// How the client puts the bytes on the connection (the bytes are always the same):
+	// Bursts = number of calls per conn.Write on a socket (empty = one call per write,
+	// strict lockstep; the responses of a burst are read after it is written);
+	// Cut = every write additionally carries the first Cut bytes of what follows
+	// (a request whose prefix is already on the wire behind the current call);
+	// Chunk = in-process pipe only: the reader hands Serve at most Chunk bytes per Read (0 = all).
+	Bursts []int `json:"bursts,omitempty"`
+	Cut    int   `json:"cut,omitempty"`
+	Chunk  int   `json:"chunk,omitempty"`
+}
+
+// c02ChunkReader returns at most n bytes per Read.
+type c02ChunkReader struct {
+	r *bytes.Reader
+	n int
+}
+
+func (c *c02ChunkReader) Read(p []byte) (int, error) {
+	if len(p) > c.n {
+		p = p[:c.n]
+	}
+	return c.r.Read(p)
+}
+
+// c02Groups turns burst sizes into groups of call indices covering all calls.
+func c02Groups(n int, bursts []int) [][]int {
+	var gs [][]int
+	i := 0
+	for _, b := range bursts {
+		if i >= n {
+			break
+		}
+		if b < 0 {
+			b = 0
+		}
+		var g []int
+		for k := 0; k < b && i < n; k++ {
+			g = append(g, i)
+			i++
+		}
+		gs = append(gs, g)
+	}
+	if len(bursts) == 0 {
+		for ; i < n; i++ {
+			gs = append(gs, []int{i})
+		}
+	} else if i < n {
+		var g []int
+		for ; i < n; i++ {
+			g = append(g, i)
+		}
+		gs = append(gs, g)
+	}
+	return gs
 }
 
 const c02GateVersion = "1.2.0"
@@ -198,7 +252,7 @@ func c02ReadStream(c net.Conn, d time.Duration) (RStream, bool) {
 // call, then reads that call's response (one stream, plus one more when the
 // first is a stream header), and so on; at the end it half-closes and reads
 // whatever else the server still sends.
-func c02RunSocket(s *vgirpc.Server, network string, calls []c02Call) (streams []RStream, notes []string) {
+func c02RunSocket(s *vgirpc.Server, network string, calls []c02Call, bursts []int, cut int) (streams []RStream, notes []string) {
 	var addr string
 	bound := make(chan string, 1)
 	done := make(chan error, 1)
@@ -227,32 +281,56 @@ func c02RunSocket(s *vgirpc.Server, network string, calls []c02Call) (streams []
 	if err != nil {
 		return nil, []string{"dial: " + err.Error()}
 	}
-	alive := true
+	// the connection input is one fixed byte string; only the write boundaries vary
+	var all []byte
+	ends := make([]int, len(calls))
 	for i, c := range calls {
+		all = append(all, c02CallBytes(c)...)
+		ends[i] = len(all)
+	}
+	groups := c02Groups(len(calls), bursts)
+	written := 0
+	alive := true
+	for gi, grp := range groups {
 		if !alive {
 			break
 		}
-		_ = conn.SetWriteDeadline(time.Now().Add(3 * time.Second))
-		if _, err := conn.Write(c02CallBytes(c)); err != nil {
-			notes = append(notes, fmt.Sprintf("write#%d: failed", i))
-			break
+		upto := written
+		if len(grp) > 0 {
+			upto = ends[grp[len(grp)-1]] + cut
 		}
-		st, ok := c02ReadStream(conn, 3*time.Second)
-		if !ok {
-			notes = append(notes, fmt.Sprintf("read#%d: %s", i, st.Err))
-			alive = false
-			break
+		if upto > len(all) || gi == len(groups)-1 {
+			upto = len(all)
 		}
-		streams = append(streams, st)
-		if c.Stream && st.Schema == "h:int64" {
-			st2, ok := c02ReadStream(conn, 3*time.Second)
+		if upto > written {
+			_ = conn.SetWriteDeadline(time.Now().Add(3 * time.Second))
+			if _, err := conn.Write(all[written:upto]); err != nil {
+				notes = append(notes, fmt.Sprintf("write(group %d): failed", gi))
+				break
+			}
+			written = upto
+		}
+		for _, i := range grp {
+			st, ok := c02ReadStream(conn, 3*time.Second)
 			if !ok {
-				notes = append(notes, fmt.Sprintf("read#%d(data): %s", i, st2.Err))
+				notes = append(notes, fmt.Sprintf("read#%d: %s", i, st.Err))
 				alive = false
 				break
 			}
-			streams = append(streams, st2)
+			streams = append(streams, st)
+			if calls[i].Stream && st.Schema == "h:int64" {
+				st2, ok := c02ReadStream(conn, 3*time.Second)
+				if !ok {
+					notes = append(notes, fmt.Sprintf("read#%d(data): %s", i, st2.Err))
+					alive = false
+					break
+				}
+				streams = append(streams, st2)
+			}
 		}
+	}
+	if written < len(all) && alive {
+		_, _ = conn.Write(all[written:])
 	}
 	switch cc := conn.(type) {
 	case *net.UnixConn:
@@ -260,8 +338,12 @@ func c02RunSocket(s *vgirpc.Server, network string, calls []c02Call) (streams []
 	case *net.TCPConn:
 		_ = cc.CloseWrite()
 	}
+	tail := 2 * time.Second
+	if !alive { // a response already timed out: do not wait long for more
+		tail = 300 * time.Millisecond
+	}
 	for {
-		st, ok := c02ReadStream(conn, 2*time.Second)
+		st, ok := c02ReadStream(conn, tail)
 		if !ok {
 			break
 		}
@@ -418,13 +500,24 @@ func c02Run(in c02In) CaseOut {
 	}
 	switch tr {
 	case "unix", "tcp":
-		streams, notes = c02RunSocket(s, tr, in.Calls)
+		streams, notes = c02RunSocket(s, tr, in.Calls, in.Bursts, in.Cut)
 	default:
 		var buf bytes.Buffer
 		for _, c := range in.Calls {
 			buf.Write(c02CallBytes(c))
 		}
-		out, esc := RunPipe(s, buf.Bytes())
+		var out []byte
+		var esc any
+		if in.Chunk > 0 { // same bytes, handed to Serve in short reads
+			var ob bytes.Buffer
+			func() {
+				defer func() { esc = recover() }()
+				s.Serve(&c02ChunkReader{r: bytes.NewReader(buf.Bytes()), n: in.Chunk}, &ob)
+			}()
+			out = ob.Bytes()
+		} else {
+			out, esc = RunPipe(s, buf.Bytes())
+		}
 		if esc != nil {
 			escaped = true
 			notes = append(notes, fmt.Sprint("escaped panic: ", esc))
@@ -450,6 +543,20 @@ func c02Run(in c02In) CaseOut {
 	}
 
 	tags := []string{"transport-" + tr, fmt.Sprintf("calls-%02d", len(in.Calls))}
+	if tr != "pipe" {
+		switch {
+		case len(in.Bursts) == 0 && in.Cut == 0:
+			tags = append(tags, "writes-lockstep")
+		case len(in.Bursts) == 0:
+			tags = append(tags, "writes-lockstep-plus-prefix-of-next")
+		case in.Cut == 0:
+			tags = append(tags, "writes-pipelined")
+		default:
+			tags = append(tags, "writes-pipelined-plus-prefix-of-next")
+		}
+	} else if in.Chunk > 0 {
+		tags = append(tags, "pipe-short-reads")
+	}
 	if in.Gate {
 		tags = append(tags, "gate-on")
 	}
@@ -457,7 +564,7 @@ func c02Run(in c02In) CaseOut {
 		tags = append(tags, t)
 	}
 	sort.Strings(tags)
-	coqIn := App("C02.Build_input", Bool(in.Gate), ListOf(in.Calls, c02CallTerm))
+	coqIn := App("C02.Build_input", Bool(in.Gate), ListOf(in.Calls, c02CallTerm), ListOf(in.Bursts, Nat))
 	coqObs := App("C02.Build_obs", c02Streams(streams), ListOf(alone, c02Streams), Bool(escaped), N(uint64(leftover)))
 	return CaseOut{Coq: Pair(coqIn, coqObs), Tags: tags, Nontrivial: len(in.Calls) >= 2 && failing > 0,
 		Obs: map[string]any{"streams": streams, "alone": alone, "escaped": escaped, "leftover_scripts": leftover, "trace": trace, "notes": notes}}
@@ -728,6 +835,50 @@ func c02GenInputs(r *rand.Rand, n int, tier string) []c02In {
 			out = append(out, c02In{Gate: gate, Transport: pick(), Calls: []c02Call{g.call("ok-stream"), g.call(cl), g.call("ok-stream"), g.call("ok-unary")}})
 		}
 	}
+	// boundary, BOTH tiers: pipelined clients on real TCP and Unix listeners. Request k+1 (or a
+	// prefix of it) is already on the wire before request k has been read: the whole history in
+	// one write, two calls per write, lockstep writes that carry 1 / 9 / 200 bytes or all of the
+	// next call, and a request right behind a stream call's input EOS; plus the in-process pipe
+	// handing the same bytes over in 1 / 7 / 64-byte reads.
+	{
+		g := &c02Gen{r: r}
+		templates := [][]string{
+			{"unary-handler-error", "ok-unary"},
+			{"ok-unary", "ok-unary", "ok-unary"},
+			{"ok-stream", "ok-unary"},
+			{"stream-early-finish", "ok-unary", "ok-stream", "ok-unary"},
+			{"bad-version", "ok-unary", "stream-param-mismatch", "ok-unary"},
+			{"describe", "client-cancel", "rows-2", "ok-unary"},
+		}
+		type pat struct {
+			bursts []int
+			cut    int
+		}
+		pats := []pat{{[]int{64}, 0}, {[]int{2, 2, 2}, 0}, {[]int{1, 3}, 0}, {nil, 1}, {nil, 9}, {nil, 200}, {nil, 1 << 20}, {[]int{2}, 5}}
+		for _, nw := range []string{"tcp", "unix"} {
+			for ti, t := range templates {
+				for pi, p := range pats {
+					if tier != "thorough" && nw == "unix" && (ti+pi)%2 == 1 {
+						continue // quick tier: every second combination on unix
+					}
+					in := c02In{Transport: nw, Bursts: p.bursts, Cut: p.cut}
+					for _, cl := range t {
+						in.Calls = append(in.Calls, g.call(cl))
+					}
+					out = append(out, in)
+				}
+			}
+		}
+		for _, chunk := range []int{1, 7, 64} {
+			for _, t := range templates[:4] {
+				in := c02In{Transport: "pipe", Chunk: chunk}
+				for _, cl := range t {
+					in.Calls = append(in.Calls, g.call(cl))
+				}
+				out = append(out, in)
+			}
+		}
+	}
 	// probes of the reported gaps (outside the theorem's premise; model agreement is still checked)
 	for _, cl := range c02GapClasses {
 		g := &c02Gen{r: r}
@@ -744,6 +895,27 @@ func c02GenInputs(r *rand.Rand, n int, tier string) []c02In {
 		cl := g.classes()
 		k := 1 + r.Intn(maxLen)
 		in := c02In{Gate: g.gate, Transport: pick()}
+		if tier != "thorough" && r.Intn(5) == 0 { // quick tier: some random histories over sockets too
+			in.Transport = []string{"tcp", "unix"}[r.Intn(2)]
+		}
+		if in.Transport != "pipe" {
+			switch r.Intn(4) {
+			case 0: // strict lockstep
+			case 1:
+				in.Bursts = []int{k}
+			default:
+				for left := k; left > 0; {
+					b := 1 + r.Intn(4)
+					in.Bursts = append(in.Bursts, b)
+					left -= b
+				}
+			}
+			if r.Intn(3) == 0 {
+				in.Cut = []int{1, 4, 8, 40, 300, 5000}[r.Intn(6)]
+			}
+		} else if r.Intn(6) == 0 {
+			in.Chunk = []int{1, 3, 16, 100, 4096}[r.Intn(5)]
+		}
 		for i := 0; i < k; i++ {
 			switch {
 			case r.Intn(4) == 0:
@@ -765,6 +937,6 @@ func c02GenInputs(r *rand.Rand, n int, tier string) []c02In {
 }
 
 func init() {
-	Register("C02", "per class (16 unary-shaped, 16 stream classes incl. every failure of the property's list, client cancel, wrong input schema, protocol-version gate) the histories [class; canary] and [stream; class; stream; canary] with the gate off and on, then probes of the reported gaps, then random histories of 1-12 calls (1-30 thorough) mixing all classes; each history is written to Server.Serve as one buffer (thorough: also call-by-call over real Unix and TCP listeners); non-trivial = at least two calls and at least one failing call; distinct = distinct input JSON",
+	Register("C02", "per class (16 unary-shaped, 16 stream classes incl. every failure of the property's list, client cancel, wrong input schema, protocol-version gate) the histories [class; canary] and [stream; class; stream; canary] with the gate off and on, then probes of the reported gaps, then random histories of 1-12 calls (1-30 thorough) mixing all classes; each history is written to Server.Serve as one buffer (optionally in short reads) or over real TCP / Unix listeners with lockstep, pipelined (several calls per write, whole history in one write) and prefix-of-next-request writes - a fixed block of 72 such socket cases in the quick tier, a quarter of all cases in the thorough tier; non-trivial = at least two calls and at least one failing call; distinct = distinct input JSON",
 		c02GenInputs, c02Run)
 }
